@@ -261,7 +261,7 @@ class Check:
                 continue
             if k.get("min_count") and sum(1 for x in self.case_layers(desc) if x in k["min_count"]["of"]) < k["min_count"]["n"]:
                 continue
-            if k.get("max_layers") is not None and len(self.case_layers(desc)) > k["max_layers"]:
+            if k.get("max_layers") is not None and sum(1 for x in self.case_layers(desc) if not x.startswith("FUSED_") and x != "STRIDE_GE2") > k["max_layers"]:
                 continue
             return k
         return None
